@@ -9,3 +9,8 @@ fp("dask/array/core.py", "Array.__setitem__", "Array.__getitem__")
 
 fp("dask/array/core.py", "slices_from_chunks", "store", "load_store_chunk", "load_chunk", "to_npy_stack", "from_npy_stack")
 fp("dask/array/optimization.py", "fuse_slice", "normalize_slice")
+
+fp("dask/array/overlap.py", "_overlap_internal_chunks", "overlap_internal", "trim_internal", "_trim", "periodic", "reflect",
+   "nearest", "constant", "boundaries", "ensure_minimum_chunksize", "overlap", "map_overlap", "sliding_window_view",
+   "coerce_depth", "coerce_boundary")
+fp("dask/layers.py", "ArrayOverlapLayer._construct_graph", "_expand_keys_around_center", "fractional_slice")
